@@ -290,32 +290,69 @@ def decision_table(ir_opt, ir, tier, out):
 
 
 def known_values_fit(ir_opt, ir, out):
-    """bounds inside range(U) => T->U->T identity on every v in [lo,hi] (z3 Int, all widths),
-    using the real `_integer_dtype_bounds` for the ranges."""
+    """decision of the real _cast_roundtrip_known_values_fit (value_min >= target_min and value_max <=
+    target_max with target bounds from the REAL _integer_dtype_bounds) => T->U->T is the identity on every
+    v in [lo,hi] (z3 Int, all widths).  The CAST semantics (two's-complement wrap) are taken from the
+    dtype's bit width and signedness, independently of the function under test; a satisfying model is
+    replayed with numpy casts and the real decision function on a stub graph."""
     ints = [d for d in ir.DataType if _int_format(d) is not None]
     n = 0
-    bad = []
+    bad, viol = [], []
     t0 = time.time()
+
+    def true_range(dt):
+        signed, bits = _int_format(dt)
+        return (-(1 << (bits - 1)), (1 << (bits - 1)) - 1) if signed else (0, (1 << bits) - 1)
+
     for T, U in itertools.product(ints, ints):
         tb = ir_opt._integer_dtype_bounds(int(T))
         ub = ir_opt._integer_dtype_bounds(int(U))
         if tb is None or ub is None:
             continue
+        tT, tU = true_range(T), true_range(U)
         v, lo, hi = z3.Ints("v lo hi")
-        mU = ub[1] - ub[0] + 1
-        mT = tb[1] - tb[0] + 1
-        wrapU = ((v - ub[0]) % mU) + ub[0]
-        wrapT = ((wrapU - tb[0]) % mT) + tb[0]
+        mU = tU[1] - tU[0] + 1
+        mT = tT[1] - tT[0] + 1
+        wrapU = ((v - tU[0]) % mU) + tU[0]
+        wrapT = ((wrapU - tT[0]) % mT) + tT[0]
         s = z3.Solver()
         s.set("timeout", 20000)
-        # the decision: value_min >= target_min and value_max <= target_max (and v in T, lo<=v<=hi)
-        s.add(lo <= v, v <= hi, v >= tb[0], v <= tb[1], lo >= ub[0], hi <= ub[1], wrapT != v)
+        # v is a value of the source type inside the proven domain [lo,hi]; the decision accepted it
+        s.add(lo <= v, v <= hi, v >= tT[0], v <= tT[1], lo >= ub[0], hi <= ub[1], wrapT != v)
         r = str(s.check())
         n += 1
-        if r != "unsat":
+        if r == "sat":
+            m = s.model()
+            vv = m.eval(v, model_completion=True).as_long()
+            rep = _replay_known_fit(ir_opt, T, U, vv)
+            if rep:
+                viol.append({"key": f"known_values_fit|{T.name}->{U.name}", "what": f"_cast_roundtrip_known_values_fit accepts the known domain [{vv},{vv}] for {T.name}->{U.name}->{T.name}, but the round trip maps {vv} to {rep}", "payload": {"T": T.name, "U": U.name, "value": vv, "roundtrip": rep}})
+            else:
+                bad.append(f"{T.name}->{U.name}: sat at v={vv} not reproduced")
+        elif r != "unsat":
             bad.append(f"{T.name}->{U.name}: {r}")
-    out["known_values_fit"] = {"pairs": n, "not_unsat": bad, "solver_s": round(time.time() - t0, 2)}
-    return bad
+    out["known_values_fit"] = {"pairs": n, "not_unsat": bad, "violations": len(viol), "solver_s": round(time.time() - t0, 2)}
+    return bad, viol
+
+
+def _replay_known_fit(ir_opt, T, U, v):
+    """numpy round trip of v through U differs AND the real decision function accepts the constant v"""
+    import numpy as np
+
+    try:
+        tnp, unp = T.numpy(), U.numpy()
+        rt = int(np.asarray(v).astype(tnp).astype(unp).astype(tnp))
+        if rt == int(np.asarray(v).astype(tnp)):
+            return None
+        saved = ir_opt._known_integer_value_bounds
+        ir_opt._known_integer_value_bounds = lambda nodes, source: (v, v)
+        try:
+            ok = ir_opt._cast_roundtrip_known_values_fit([], object(), int(T), int(U))
+        finally:
+            ir_opt._known_integer_value_bounds = saved
+        return rt if ok else None
+    except Exception:
+        return None
 
 
 CH_HARNESS = '''
@@ -486,7 +523,8 @@ def main(tier):
     out = {"inconclusive": [], "samples": [], "harness_errors": []}
     violations = []
     violations += decision_table(ir_opt, ir, tier, out)
-    bad = known_values_fit(ir_opt, ir, out)
+    bad, kv = known_values_fit(ir_opt, ir, out)
+    violations += kv
     for b in bad:
         out["inconclusive"].append("known_values_fit " + b)
     try:
